@@ -74,7 +74,14 @@ def BFFM2_EINOx(
     x_eval = np.log10(ff_eval)
 
     # Single log–log regression
-    slope, intercept = np.polyfit(x_cal, y_cal, 1)
+    if np.isclose(np.ptp(x_cal), 0.0):
+        # All calibration fuel flows coincide: the regression line is not
+        # unique (np.polyfit would return its minimum-norm solution or fail to
+        # converge). Use the horizontal line through the mean log-EI, as
+        # EI_HCCO does for duplicate calibration flows.
+        slope, intercept = 0.0, float(np.mean(y_cal))
+    else:
+        slope, intercept = np.polyfit(x_cal, y_cal, 1)
     NOxEI_sl = 10.0 ** (x_eval * slope + intercept)  # g/kg fuel at SLS-equivalent
 
     # Apply the humidity/θ/δ correction (Eqs. 44–45) [for cruise conditions]
